@@ -1,10 +1,778 @@
 package rules
 
+import (
+	"fmt"
+	"go/ast"
+	"go/constant"
+	"go/token"
+	"go/types"
+	"strings"
+
+	"verif/checker/internal/core"
+	"verif/checker/internal/ctx"
+	"verif/checker/internal/tmpl"
+)
+
 func init() {
 	register(&Property{
 		ID:          "C01",
-		Explanation: "Structural necessary conditions of 'compiled programs behave like the reference toolchain' are decided: the compiler/prelude/natives boundary is closed (names, arities, properties, unshadowable host names), dispatches are total, panics are contained, templates lex as JavaScript, program assembly order. NOT decided: that any emitted statement means what the Go construct means.",
-		Assumptions: []string{"go/types and go/ast describe the compiler's own code faithfully", "acorn parses the prelude as Node would", "templates are the only way package compiler produces JavaScript text"},
-		Rules:       []RuleFunc{ruleL1, ruleL2, ruleL3, ruleL4, ruleL8, ruleL9, ruleTotal("C01.exh", 30, ""), ruleBuiltins, ruleRewrites},
+		Explanation: "Structural necessary conditions of 'compiled programs behave like the reference toolchain' are decided: the compiler/prelude/natives boundary is closed (names, arities, properties, unshadowable host names), dispatches are total, compiler panics are contained, templates lex as JavaScript and do not glue operators, program assembly order, 32-bit sizes. NOT decided: that any emitted statement means what the Go construct means.",
+		Assumptions: []string{"go/types and go/ast describe the compiler's own code faithfully", "acorn parses the prelude as Node would", "string constants of package compiler are the only way it produces JavaScript text"},
+		Rules: []RuleFunc{ruleL1, ruleL2, ruleL3, ruleL4, ruleL8, ruleL9, ruleTotal("C01.exh", 30, ""), ruleBuiltins, ruleRewrites,
+			ruleContain, ruleLex, ruleAdj, ruleAssembly, ruleSizes},
 	})
+}
+
+// ---------------------------------------------------------------------------
+// C01.contain
+
+func ruleContain(c *ctx.Ctx, r *core.Reporter) {
+	r.Begin("C01.contain", "F-MUST", "a panic inside the compiler is converted into an error: Compile recovers into its named error result on every recovered path, translateStmt re-panics only bailout values, Simplify precedes Analyze/Compile, and program writers do not drop write errors", 8)
+	p := c.Pkg("compiler")
+	info := p.TypesInfo
+	fd := c.FuncDecl("compiler", "Compile")
+	if fd == nil {
+		r.Undecided("Compile", "compiler/package.go", "compiler.Compile not found")
+		return
+	}
+	// named error result
+	errName := ""
+	if fd.Type.Results != nil {
+		for _, f := range fd.Type.Results.List {
+			if types.Identical(info.TypeOf(f.Type), types.Universe.Lookup("error").Type()) && len(f.Names) == 1 {
+				errName = f.Names[0].Name
+			}
+		}
+	}
+	r.Check(errName != "" && errName != "_", "Compile:named-error", c.Pos(fd.Pos()), "Compile has a named error result a deferred handler can assign: "+errName)
+	// deferred closure with recover, first statement level
+	var handler *ast.FuncLit
+	for _, st := range fd.Body.List {
+		if ds, ok := st.(*ast.DeferStmt); ok {
+			if fl, ok := ds.Call.Fun.(*ast.FuncLit); ok && containsCallTo(fl, "recover") {
+				handler = fl
+			}
+		}
+		if handler != nil {
+			break
+		}
+		// the defer must come before any other work
+		if _, ok := st.(*ast.DeferStmt); !ok {
+			break
+		}
+	}
+	r.Check(handler != nil, "Compile:defer-recover", c.Pos(fd.Pos()), "the first statement of Compile defers a closure that calls recover()")
+	if handler != nil && errName != "" {
+		// every path of the handler after a non-nil recover assigns err: check that each `return`
+		// other than the nil-guard is preceded by an assignment to err in the same block, and that the
+		// closure's last statement is an assignment to err.
+		ok, why := handlerAssignsOnAllPaths(handler, errName)
+		r.Check(ok, "Compile:assigns-error", c.Pos(handler.Pos()), "recovered panics always become the returned error: "+why)
+		// no re-panic inside the handler
+		r.Check(!containsCallTo(handler, "panic"), "Compile:no-repanic", c.Pos(handler.Pos()), "the recover handler of Compile never re-panics")
+	}
+	// translateStmt handler: panics only bailout values
+	ts := c.FuncDecl("compiler", "funcContext.translateStmt")
+	if ts == nil {
+		r.Undecided("translateStmt", "compiler/statements.go", "translateStmt not found")
+	} else {
+		var h *ast.FuncLit
+		for _, st := range ts.Body.List {
+			if ds, ok := st.(*ast.DeferStmt); ok {
+				if fl, ok := ds.Call.Fun.(*ast.FuncLit); ok && containsCallTo(fl, "recover") {
+					h = fl
+				}
+			}
+		}
+		if h == nil {
+			r.Info("translateStmt:handler", c.Pos(ts.Pos()), "translateStmt has no recover handler (clues are optional)")
+		} else {
+			ok := true
+			detail := ""
+			ast.Inspect(h.Body, func(n ast.Node) bool {
+				ce, isCall := n.(*ast.CallExpr)
+				if !isCall {
+					return true
+				}
+				if id, isId := ce.Fun.(*ast.Ident); isId && id.Name == "panic" && len(ce.Args) == 1 {
+					arg := ce.Args[0]
+					// allowed: a variable assigned from bailout(...), or the recovered value inside an `if bailingOut(err)` guard
+					if isBailoutValue(info, h, arg) || guardedByBailingOut(h, ce) {
+						return true
+					}
+					ok = false
+					detail = "panic(" + exprStr(arg) + ") at " + c.Pos(ce.Pos()) + " re-panics a value that is not a *FatalError"
+				}
+				return true
+			})
+			r.Check(ok, "translateStmt:repanic-bailout-only", c.Pos(h.Pos()), "translateStmt's handler only continues orderly bailouts. "+detail)
+		}
+	}
+	// bailingOut recognises *FatalError, bailout produces one
+	if bo := c.FuncDecl("compiler", "bailout"); bo != nil {
+		res := info.TypeOf(bo.Type.Results.List[0].Type)
+		r.Check(strings.HasSuffix(res.String(), "compiler.FatalError"), "bailout:type", c.Pos(bo.Pos()), "bailout returns "+res.String())
+	}
+	// FatalError implements error
+	if o := p.Types.Scope().Lookup("FatalError"); o != nil {
+		errI := types.Universe.Lookup("error").Type().Underlying().(*types.Interface)
+		r.Check(types.Implements(types.NewPointer(o.Type()), errI), "FatalError:error", "compiler/utils.go", "*FatalError implements error")
+	}
+	// PrepareAllSources: Simplify for all before Analyze
+	if pa := c.FuncDecl("compiler", "PrepareAllSources"); pa != nil {
+		order := callOrder(info, pa, []string{"Sort", "TypeCheck", "ParseGoLinknames", "Simplify", "CollectInstances", "Finish", "Analyze", "PropagateAnalysis"})
+		want := []string{"Sort", "TypeCheck", "ParseGoLinknames", "Simplify", "CollectInstances", "Finish", "Analyze", "PropagateAnalysis"}
+		okOrder := true
+		last := -1
+		var missing []string
+		for _, w := range want {
+			idx, found := order[w]
+			if !found {
+				missing = append(missing, w)
+				okOrder = false
+				continue
+			}
+			if w == "Simplify" || w == "Analyze" {
+				_ = idx
+			}
+			if idx < last {
+				okOrder = false
+			}
+			last = idx
+		}
+		// Simplify must precede Analyze (translateStmt panics on un-simplified if/switch)
+		si, ok1 := order["Simplify"]
+		ai, ok2 := order["Analyze"]
+		r.Check(ok1 && ok2 && si < ai, "Prepare:Simplify<Analyze", c.Pos(pa.Pos()), "every source is simplified (if/switch init hoisting) in a loop that ends before the first Analyze; translateStmt panics with 'simplification error' otherwise")
+		r.Check(okOrder, "Prepare:pipeline-order", c.Pos(pa.Pos()), fmt.Sprintf("pipeline stages occur in the order %v as top-level statements (missing: %v)", want, missing))
+		// each stage that is per-source is inside a `for _, srcs := range allSources` loop
+		for _, st := range []string{"Sort", "TypeCheck", "ParseGoLinknames", "Simplify", "CollectInstances", "Analyze"} {
+			idx, found := order[st]
+			if !found {
+				continue
+			}
+			_, isLoop := pa.Body.List[idx].(*ast.RangeStmt)
+			loopOK := false
+			if isLoop {
+				rs := pa.Body.List[idx].(*ast.RangeStmt)
+				loopOK = exprStr(rs.X) == pa.Type.Params.List[0].Names[0].Name
+			}
+			r.Check(loopOK, "Prepare:all-sources:"+st, c.Pos(pa.Body.List[idx].Pos()), st+" is applied in a loop over all sources")
+		}
+	} else {
+		r.Undecided("PrepareAllSources", "compiler/package.go", "not found")
+	}
+	// writers do not drop errors
+	for _, fn := range []string{"WriteProgramCode", "WritePkgCode", "writeF"} {
+		w := c.FuncDecl("compiler", fn)
+		if w == nil {
+			r.Undecided("writer:"+fn, "compiler/compiler.go", "not found")
+			continue
+		}
+		dropped := droppedErrors(info, w)
+		var bad []string
+		for _, d := range dropped {
+			_, _, n := callee(info, d)
+			if n == "Add" { // GoLinknameSet.Add: conflict diagnostics (C10.dup, informational)
+				r.Info("writer:"+fn+":gls.Add", c.Pos(d.Pos()), "the error of GoLinknameSet.Add (conflicting directives) is dropped; not part of the property's rejected uses")
+				continue
+			}
+			bad = append(bad, exprStr(d.Fun)+" at "+c.Pos(d.Pos()))
+		}
+		r.Check(len(bad) == 0, "writer:"+fn+":errors-propagated", c.Pos(w.Pos()), fmt.Sprintf("no call with an error result is used as a statement or assigned to _ (%d dropped: %s)", len(bad), strings.Join(bad, "; ")))
+	}
+}
+
+func containsCallTo(n ast.Node, name string) bool {
+	found := false
+	ast.Inspect(n, func(x ast.Node) bool {
+		if ce, ok := x.(*ast.CallExpr); ok {
+			if id, ok := ce.Fun.(*ast.Ident); ok && id.Name == name {
+				found = true
+			}
+		}
+		return !found
+	})
+	return found
+}
+
+// handlerAssignsOnAllPaths: in the recover handler, every return statement
+// except the one guarded by `e == nil` is preceded (in its block) by an
+// assignment to errName, and the fall-off end of the closure is an assignment to errName.
+func handlerAssignsOnAllPaths(h *ast.FuncLit, errName string) (bool, string) {
+	assigns := func(st ast.Stmt) bool {
+		as, ok := st.(*ast.AssignStmt)
+		if !ok {
+			return false
+		}
+		for _, l := range as.Lhs {
+			if id, ok := l.(*ast.Ident); ok && id.Name == errName {
+				return true
+			}
+		}
+		return false
+	}
+	var check func(list []ast.Stmt, nilGuardSeen *bool, assigned bool) (bool, string)
+	check = func(list []ast.Stmt, nilGuardSeen *bool, assigned bool) (bool, string) {
+		for _, st := range list {
+			switch s := st.(type) {
+			case *ast.AssignStmt:
+				if assigns(s) {
+					assigned = true
+				}
+			case *ast.ReturnStmt:
+				if !assigned {
+					return false, "a return is reachable without assigning " + errName
+				}
+				return true, ""
+			case *ast.IfStmt:
+				// nil guard: if e == nil { return }
+				if be, ok := s.Cond.(*ast.BinaryExpr); ok && be.Op == token.EQL && exprStr(be.Y) == "nil" && !*nilGuardSeen {
+					*nilGuardSeen = true
+					continue
+				}
+				ok, why := check(s.Body.List, nilGuardSeen, assigned)
+				if !ok {
+					return false, why
+				}
+				if s.Else != nil {
+					if blk, isBlk := s.Else.(*ast.BlockStmt); isBlk {
+						if ok, why := check(blk.List, nilGuardSeen, assigned); !ok {
+							return false, why
+						}
+					}
+				}
+			}
+		}
+		// fell off the end of this block
+		return true, ""
+	}
+	seen := false
+	ok, why := check(h.Body.List, &seen, false)
+	if !ok {
+		return false, why
+	}
+	if !seen {
+		return false, "no `recovered == nil` early return"
+	}
+	// last statement must be an assignment to errName (fall-through path)
+	if n := len(h.Body.List); n == 0 || !assigns(h.Body.List[n-1]) {
+		return false, "the closure can fall off its end without assigning " + errName
+	}
+	return true, "nil-guard, then every return and the fall-through assign " + errName
+}
+
+func isBailoutValue(info *types.Info, h *ast.FuncLit, arg ast.Expr) bool {
+	if ce, ok := arg.(*ast.CallExpr); ok {
+		if id, ok := ce.Fun.(*ast.Ident); ok && id.Name == "bailout" {
+			return true
+		}
+	}
+	id, ok := arg.(*ast.Ident)
+	if !ok {
+		return false
+	}
+	found := false
+	ast.Inspect(h.Body, func(n ast.Node) bool {
+		if as, ok := n.(*ast.AssignStmt); ok && len(as.Lhs) == 1 && len(as.Rhs) == 1 {
+			if l, ok := as.Lhs[0].(*ast.Ident); ok && l.Name == id.Name {
+				if ce, ok := as.Rhs[0].(*ast.CallExpr); ok {
+					if f, ok := ce.Fun.(*ast.Ident); ok && f.Name == "bailout" {
+						found = true
+					}
+				}
+			}
+		}
+		return true
+	})
+	return found
+}
+
+func guardedByBailingOut(h *ast.FuncLit, call *ast.CallExpr) bool {
+	ok := false
+	ast.Inspect(h.Body, func(n ast.Node) bool {
+		is, isIf := n.(*ast.IfStmt)
+		if !isIf {
+			return true
+		}
+		if is.Body.Pos() <= call.Pos() && call.End() <= is.Body.End() {
+			src := ""
+			if is.Init != nil {
+				if as, okA := is.Init.(*ast.AssignStmt); okA && len(as.Rhs) == 1 {
+					src = exprStr(as.Rhs[0])
+				}
+			}
+			if strings.HasPrefix(src, "bailingOut(") {
+				ok = true
+			}
+		}
+		return true
+	})
+	return ok
+}
+
+// callOrder maps method/function names to the index of the first top-level
+// statement of fd's body that contains a call of that name.
+func callOrder(info *types.Info, fd *ast.FuncDecl, names []string) map[string]int {
+	out := map[string]int{}
+	for i, st := range fd.Body.List {
+		ast.Inspect(st, func(n ast.Node) bool {
+			if ce, ok := n.(*ast.CallExpr); ok {
+				_, _, nm := callee(info, ce)
+				for _, w := range names {
+					if nm == w {
+						if _, seen := out[w]; !seen {
+							out[w] = i
+						}
+					}
+				}
+			}
+			return true
+		})
+	}
+	return out
+}
+
+// ---------------------------------------------------------------------------
+// C01.lex
+
+func ruleLex(c *ctx.Ctx, r *core.Reporter) {
+	r.Begin("C01.lex", "F-LEX", "every format string handed to an emission sink lexes as JavaScript tokens (closed strings and comments, no stray characters, no 0x08 byte) and every prelude file parses", 300)
+	if _, err := c.Prelude(); err != nil {
+		r.Violation("prelude-parses", "compiler/prelude", err.Error())
+	} else {
+		for _, f := range c.PreludeList() {
+			r.OK("prelude-parses:"+f.Name, f.Name, "acorn accepts the file")
+		}
+	}
+	n := 0
+	for _, t := range usableTemplates(c) {
+		if t.Role != tmpl.RoleSink || t.Func == "encodeString" {
+			continue
+		}
+		n++
+		var errs []string
+		for _, tk := range t.Tokens {
+			if tk.Kind == tmpl.TErr {
+				errs = append(errs, fmt.Sprintf("%s %q", tk.Err, tk.Text))
+			}
+		}
+		if strings.ContainsRune(t.Text, '\b') {
+			errs = append(errs, "contains the source-map hint byte 0x08")
+		}
+		key := "lex:" + t.Key()
+		r.Check(len(errs) == 0, key, c.Pos(t.Pos), ternary(len(errs) == 0, "tokenises", "template of "+t.Sink+" in "+t.Func+" does not lex as JavaScript: "+strings.Join(errs, "; ")))
+	}
+	r.Count("sink templates lexed", n)
+}
+
+// ---------------------------------------------------------------------------
+// C01.adj
+
+func ruleAdj(c *ctx.Ctx, r *core.Reporter) {
+	r.Begin("C01.adj", "F-LEX", "an expression template that starts with - or + is parenthesised whenever it is spliced into another template (formatParenExpr, or wrapped by fixNumber on a path where fixNumber cannot pass its argument through), so a hole glued to a preceding - or + can never form -- or ++", 3)
+	info := c.Pkg("compiler").TypesInfo
+	fd := c.FuncDecl("compiler", "funcContext.translateExpr")
+	// 1. templates whose expansion starts with a glue-prone operator
+	type starter struct {
+		t         *tmpl.Template
+		ch        string
+		protected bool
+		how       string
+	}
+	var starters []starter
+	for _, t := range usableTemplates(c) {
+		if t.Role != tmpl.RoleSink || t.Dialect != tmpl.DialectExpr || len(t.Tokens) == 0 {
+			continue
+		}
+		tk := t.Tokens[0]
+		if tk.Kind != tmpl.TPunct || !(tk.Text == "-" || tk.Text == "+" || tk.Text == "--" || tk.Text == "++") {
+			continue
+		}
+		st := starter{t: t, ch: tk.Text[:1]}
+		switch {
+		case t.Sink == "formatParenExpr":
+			st.protected, st.how = true, "emitted through formatParenExpr (parenthesised when spliced)"
+		default:
+			// direct argument of fixNumber?
+			var wrap *ast.CallExpr
+			if fd != nil {
+				ast.Inspect(fd.Body, func(n ast.Node) bool {
+					if ce, ok := n.(*ast.CallExpr); ok && len(ce.Args) >= 1 && ce.Args[0] == ast.Expr(t.Call) {
+						if _, _, nm := callee(info, ce); nm == "fixNumber" {
+							wrap = ce
+						}
+					}
+					return true
+				})
+			}
+			if wrap == nil {
+				st.how = "emitted through " + t.Sink + " without parentheses"
+				break
+			}
+			passKinds := fixNumberPassThroughKinds(c)
+			reach, ok := kindsReachingCall(c, fd, wrap)
+			if !ok {
+				st.how = "wrapped by fixNumber, but the kinds reaching the call could not be determined"
+				break
+			}
+			var leak []string
+			for _, k := range reach {
+				if passKinds[k] {
+					leak = append(leak, kindName(k))
+				}
+			}
+			if len(leak) == 0 {
+				st.protected, st.how = true, "wrapped by fixNumber on a path restricted to kinds that fixNumber always parenthesises"
+			} else {
+				st.how = "wrapped by fixNumber, which returns its argument unchanged for " + strings.Join(leak, ",")
+			}
+		}
+		starters = append(starters, st)
+		r.Check(st.protected, "starter:"+t.Func+"["+strings.Join(t.CasePath, "/")+"]:"+t.Text, c.Pos(t.Pos), fmt.Sprintf("template %q starts with %q: %s", t.Text, st.ch, st.how))
+	}
+	// 2. glue sites
+	n := 0
+	for _, t := range usableTemplates(c) {
+		if t.Role != tmpl.RoleSink || t.Dialect != tmpl.DialectExpr {
+			continue
+		}
+		for i, tk := range t.Tokens {
+			if tk.Kind != tmpl.THole || tk.SpaceBefore || i == 0 {
+				continue
+			}
+			p := t.Tokens[i-1]
+			if p.Kind != tmpl.TPunct || !(p.Text == "-" || p.Text == "+") {
+				continue
+			}
+			h := t.Holes[tk.Holes[0]]
+			if !strings.ContainsRune("efs", rune(h.Verb)) {
+				continue // %h %l %r %i expand to <identifier or temporary>.$member
+			}
+			n++
+			var bad []string
+			for _, st := range starters {
+				if st.ch == p.Text && !st.protected {
+					bad = append(bad, fmt.Sprintf("%q at %s", st.t.Text, c.Pos(st.t.Pos)))
+				}
+			}
+			key := "glue:" + t.Func + "[" + strings.Join(t.CasePath, "/") + "]:" + p.Text + "⟨" + string(h.Verb) + "⟩"
+			r.Check(len(bad) == 0, key, c.Pos(t.Pos), ternary(len(bad) == 0, "every expansion that starts with "+p.Text+" is parenthesised (constant operands make the whole expression constant, which is folded before this arm)", fmt.Sprintf("template %q glues %q to a hole that can expand to an unparenthesised expression starting with %q: %s", t.Text, p.Text, p.Text, strings.Join(bad, "; "))))
+		}
+	}
+	r.Count("operator-glued holes examined", n)
+}
+
+// fixNumberPassThroughKinds: kinds for which fixNumber returns its argument unchanged.
+func fixNumberPassThroughKinds(c *ctx.Ctx) map[types.BasicKind]bool {
+	out := map[types.BasicKind]bool{}
+	fd := c.FuncDecl("compiler", "funcContext.fixNumber")
+	if fd == nil {
+		return out
+	}
+	info := c.Pkg("compiler").TypesInfo
+	ast.Inspect(fd.Body, func(n ast.Node) bool {
+		cc, ok := n.(*ast.CaseClause)
+		if !ok || cc.List == nil {
+			return true
+		}
+		pass := false
+		for _, st := range cc.Body {
+			if rs, ok := st.(*ast.ReturnStmt); ok && len(rs.Results) == 1 {
+				if _, isIdent := rs.Results[0].(*ast.Ident); isIdent {
+					pass = true
+				}
+			}
+		}
+		if pass {
+			for _, l := range cc.List {
+				if tv := info.Types[l]; tv.Value != nil {
+					v, _ := constant.Int64Val(tv.Value)
+					out[types.BasicKind(v)] = true
+				}
+			}
+		}
+		return true
+	})
+	return out
+}
+
+// kindsReachingCall computes the basic kinds that can reach the return
+// statement containing call, inside the operator arms of translateExpr.
+func kindsReachingCall(c *ctx.Ctx, fd *ast.FuncDecl, call *ast.CallExpr) ([]types.BasicKind, bool) {
+	ke := newKindEval(c)
+	// smallest enclosing switch on e.Op / numeric if-block
+	var best []retSite
+	found := false
+	ast.Inspect(fd.Body, func(n ast.Node) bool {
+		sw, ok := n.(*ast.SwitchStmt)
+		if !ok || sw.Tag == nil || exprStr(sw.Tag) != "e.Op" {
+			return true
+		}
+		if !(sw.Pos() <= call.Pos() && call.End() <= sw.End()) {
+			return true
+		}
+		start := pairSet{}
+		for _, o := range append(append([]token.Token{}, binaryOps...), token.NOT) {
+			for k := types.Bool; k <= types.UnsafePointer; k++ {
+				start[okPair{o, k}] = true
+			}
+		}
+		var sites []retSite
+		ke.flow([]ast.Stmt{sw}, start, &sites)
+		best = sites
+		found = true
+		return true
+	})
+	if !found {
+		return nil, false
+	}
+	for _, s := range best {
+		if s.ret.Pos() <= call.Pos() && call.End() <= s.ret.End() {
+			return s.pairs.kinds(), true
+		}
+	}
+	return nil, false
+}
+
+// ---------------------------------------------------------------------------
+// C01.assembly
+
+func ruleAssembly(c *ctx.Ctx, r *core.Reporter) {
+	r.Begin("C01.assembly", "F-MUST", "WriteProgramCode writes the prelude before any package, then the setup chain in the required order; WritePkgCode writes every code field of Decl exactly once and only for decls selected by dead-code elimination", 18)
+	p := c.Pkg("compiler")
+	info := p.TypesInfo
+	fd := c.FuncDecl("compiler", "WriteProgramCode")
+	if fd == nil {
+		r.Undecided("WriteProgramCode", "compiler/compiler.go", "not found")
+		return
+	}
+	// index of top-level statements by what they write
+	idx := map[string]int{}
+	for i, st := range fd.Body.List {
+		ast.Inspect(st, func(n ast.Node) bool {
+			ce, ok := n.(*ast.CallExpr)
+			if !ok {
+				return true
+			}
+			_, recv, name := callee(info, ce)
+			switch {
+			case name == "writeF" && len(ce.Args) >= 3:
+				if tv, ok := info.Types[ce.Args[2]]; ok && tv.Value != nil {
+					s := constant.StringVal(tv.Value)
+					for _, marker := range []string{`"use strict"`, "$goVersion", `$callForAllPackages("$finishSetup")`, "$synthesizeMethods()", `$callForAllPackages("$initLinknames")`, "var $mainPkg", `$packages["runtime"].$init()`, "$go($mainPkg.$init", "$flushConsole()", "}).call(this)"} {
+						if strings.Contains(s, marker) {
+							if _, seen := idx[marker]; !seen {
+								idx[marker] = i
+							}
+						}
+					}
+				}
+			case name == "WriteJS" && recv == "Filter":
+				if _, seen := idx["prelude"]; !seen {
+					idx["prelude"] = i
+				}
+			case name == "WritePkgCode":
+				if _, seen := idx["packages"]; !seen {
+					idx["packages"] = i
+				}
+			case name == "PreludeFiles":
+				idx["preludeFiles"] = i
+			}
+			return true
+		})
+	}
+	chain := []string{`"use strict"`, "$goVersion", "prelude", "packages", `$callForAllPackages("$finishSetup")`, "$synthesizeMethods()", `$callForAllPackages("$initLinknames")`, "var $mainPkg", `$packages["runtime"].$init()`, "$go($mainPkg.$init", "}).call(this)"}
+	for i := 0; i+1 < len(chain); i++ {
+		a, b := chain[i], chain[i+1]
+		ia, oka := idx[a]
+		ib, okb := idx[b]
+		r.Check(oka && okb && ia < ib, "order:"+a+"≺"+b, c.Pos(fd.Pos()), fmt.Sprintf("WriteProgramCode emits %s (stmt %d, found %v) before %s (stmt %d, found %v)", a, ia, oka, b, ib, okb))
+	}
+	// the prelude loop iterates prelude.PreludeFiles()
+	if i, ok := idx["prelude"]; ok {
+		rs, isRange := fd.Body.List[i].(*ast.RangeStmt)
+		r.Check(isRange && strings.Contains(exprStr(rs.X), "PreludeFiles"), "prelude:all-files", c.Pos(fd.Body.List[i].Pos()), "the prelude is written by a loop over prelude.PreludeFiles()")
+	}
+	// packages loop iterates pkgs in slice order
+	if i, ok := idx["packages"]; ok {
+		rs, isRange := fd.Body.List[i].(*ast.RangeStmt)
+		r.Check(isRange && exprStr(rs.X) == fd.Type.Params.List[0].Names[0].Name, "packages:slice-order", c.Pos(fd.Body.List[i].Pos()), "packages are written by a range loop over the pkgs slice (dependency order)")
+	}
+
+	// WritePkgCode: every []byte field of Decl written exactly once
+	wp := c.FuncDecl("compiler", "WritePkgCode")
+	declObj := p.Types.Scope().Lookup("Decl")
+	if wp == nil || declObj == nil {
+		r.Undecided("WritePkgCode", "compiler/compiler.go", "WritePkgCode or Decl not found")
+		return
+	}
+	st := declObj.Type().Underlying().(*types.Struct)
+	var codeFields []string
+	for i := 0; i < st.NumFields(); i++ {
+		if sl, ok := st.Field(i).Type().(*types.Slice); ok {
+			if b, ok := sl.Elem().(*types.Basic); ok && b.Kind() == types.Byte {
+				codeFields = append(codeFields, st.Field(i).Name())
+			}
+		}
+	}
+	writes := map[string]int{}
+	var loopVars []string
+	ast.Inspect(wp.Body, func(n ast.Node) bool {
+		ce, ok := n.(*ast.CallExpr)
+		if !ok {
+			return true
+		}
+		_, recv, name := callee(info, ce)
+		if name == "Write" && recv == "Filter" && len(ce.Args) == 1 {
+			if sel, ok := ce.Args[0].(*ast.SelectorExpr); ok {
+				writes[sel.Sel.Name]++
+				if id, ok := sel.X.(*ast.Ident); ok {
+					loopVars = append(loopVars, id.Name)
+				}
+			}
+		}
+		return true
+	})
+	for _, f := range codeFields {
+		r.Check(writes[f] == 1, "emit-field:"+f, c.Pos(wp.Pos()), fmt.Sprintf("Decl.%s is written %d time(s) by WritePkgCode (want exactly 1)", f, writes[f]))
+	}
+	// all loops that write code fields range over the DCE-filtered list
+	filteredOK := true
+	detail := ""
+	ast.Inspect(wp.Body, func(n ast.Node) bool {
+		rs, ok := n.(*ast.RangeStmt)
+		if !ok {
+			return true
+		}
+		writesField := false
+		ast.Inspect(rs.Body, func(m ast.Node) bool {
+			if ce, ok := m.(*ast.CallExpr); ok {
+				_, recv, name := callee(info, ce)
+				if name == "Write" && recv == "Filter" {
+					writesField = true
+				}
+			}
+			return true
+		})
+		if writesField && exprStr(rs.X) != "filteredDecls" {
+			filteredOK = false
+			detail = "loop at " + c.Pos(rs.Pos()) + " ranges over " + exprStr(rs.X)
+		}
+		return true
+	})
+	r.Check(filteredOK, "emit-only-alive", c.Pos(wp.Pos()), "every loop writing Decl code ranges over filteredDecls. "+detail)
+	// filteredDecls is appended only under the dceSelection membership test
+	appOK := false
+	ast.Inspect(wp.Body, func(n ast.Node) bool {
+		is, ok := n.(*ast.IfStmt)
+		if !ok || is.Init == nil {
+			return true
+		}
+		if strings.Contains(exprStr(is.Init.(*ast.AssignStmt).Rhs[0]), "dceSelection[") && containsIdent(is.Body, "filteredDecls") {
+			appOK = true
+		}
+		return true
+	})
+	r.Check(appOK, "filtered-from-selection", c.Pos(wp.Pos()), "filteredDecls is filled under `if _, ok := dceSelection[d]; ok`")
+	// Decl.minify covers every code field (shared with C16)
+	if mf := c.FuncDecl("compiler", "Decl.minify"); mf != nil {
+		for _, f := range codeFields {
+			n := 0
+			ast.Inspect(mf.Body, func(x ast.Node) bool {
+				if as, ok := x.(*ast.AssignStmt); ok && len(as.Lhs) == 1 {
+					if sel, ok := as.Lhs[0].(*ast.SelectorExpr); ok && sel.Sel.Name == f {
+						if ce, ok := as.Rhs[0].(*ast.CallExpr); ok && len(ce.Args) >= 1 {
+							if a, ok := ce.Args[0].(*ast.SelectorExpr); ok && a.Sel.Name == f {
+								n++
+							}
+						}
+					}
+				}
+				return true
+			})
+			r.Check(n == 1, "minify-field:"+f, c.Pos(mf.Pos()), fmt.Sprintf("Decl.minify rewrites %s from itself %d time(s)", f, n))
+		}
+	}
+}
+
+// ---------------------------------------------------------------------------
+// C01.sizes
+
+func ruleSizes(c *ctx.Ctx, r *core.Reporter) {
+	r.Begin("C01.sizes", "F-TABLE", "the type checker and unsafe.Sizeof/Alignof/Offsetof use 32-bit sizes (documented: int, uint, uintptr are 32 bits)", 4)
+	p := c.Pkg("compiler")
+	info := p.TypesInfo
+	// var sizes32 = &types.StdSizes{WordSize: 4, ...}
+	word := int64(-1)
+	site := "compiler/compiler.go"
+	for _, f := range p.Syntax {
+		for _, d := range f.Decls {
+			gd, ok := d.(*ast.GenDecl)
+			if !ok || gd.Tok != token.VAR {
+				continue
+			}
+			for _, sp := range gd.Specs {
+				vs := sp.(*ast.ValueSpec)
+				for i, nm := range vs.Names {
+					if nm.Name != "sizes32" || i >= len(vs.Values) {
+						continue
+					}
+					site = c.Pos(nm.Pos())
+					ast.Inspect(vs.Values[i], func(n ast.Node) bool {
+						if kv, ok := n.(*ast.KeyValueExpr); ok && exprStr(kv.Key) == "WordSize" {
+							if tv, ok := info.Types[kv.Value]; ok && tv.Value != nil {
+								word, _ = constant.Int64Val(tv.Value)
+							}
+						}
+						return true
+					})
+				}
+			}
+		}
+	}
+	r.Check(word == 4, "sizes32:WordSize", site, fmt.Sprintf("sizes32 is a types.StdSizes with WordSize %d (want 4)", word))
+	// PrepareAllSources passes sizes32 to TypeCheck
+	if pa := c.FuncDecl("compiler", "PrepareAllSources"); pa != nil {
+		ok := false
+		ast.Inspect(pa.Body, func(n ast.Node) bool {
+			if ce, isCall := n.(*ast.CallExpr); isCall {
+				if _, _, nm := callee(info, ce); nm == "TypeCheck" {
+					for _, a := range ce.Args {
+						if exprStr(a) == "sizes32" {
+							ok = true
+						}
+					}
+				}
+			}
+			return true
+		})
+		r.Check(ok, "TypeCheck:sizes32", c.Pos(pa.Pos()), "PrepareAllSources type-checks with sizes32")
+	}
+	// sources.TypeCheck puts its sizes parameter into types.Config.Sizes (both for the package and its importer)
+	sp := c.Pkg("compiler/sources")
+	if tc := c.FuncDecl("compiler/sources", "Sources.TypeCheck"); tc != nil && sp != nil {
+		n := 0
+		ast.Inspect(tc.Body, func(x ast.Node) bool {
+			if kv, ok := x.(*ast.KeyValueExpr); ok && (exprStr(kv.Key) == "Sizes" || exprStr(kv.Key) == "sizes") && exprStr(kv.Value) == "sizes" {
+				n++
+			}
+			return true
+		})
+		r.Check(n >= 2, "TypeCheck:Config.Sizes", c.Pos(tc.Pos()), fmt.Sprintf("the sizes parameter flows into types.Config.Sizes and into the package importer (%d uses)", n))
+	}
+	// Sizeof/Alignof/Offsetof arms use sizes32
+	tb := c.FuncDecl("compiler", "funcContext.translateBuiltin")
+	if tb != nil {
+		for _, b := range []string{"Sizeof", "Alignof", "Offsetof"} {
+			ok := false
+			ast.Inspect(tb.Body, func(n ast.Node) bool {
+				if cc, isCC := n.(*ast.CaseClause); isCC && len(cc.List) == 1 && exprStr(cc.List[0]) == `"`+b+`"` {
+					ok = containsIdent(cc, "sizes32")
+				}
+				return true
+			})
+			r.Check(ok, "unsafe."+b+":sizes32", c.Pos(tb.Pos()), "unsafe."+b+" is computed with sizes32")
+		}
+	}
 }
